@@ -377,6 +377,21 @@ inductive RefLookup where
   | missing
 deriving Repr, DecidableEq
 
+/-- `ReadEntityRef` after the `#` / `@` has been read: the id, the look-up, the type test -/
+def refTail (lookup : Int → RefLookup) (delims : Option (List Byte)) (s2 : IStream) (err0 : Sev) :
+    Option Int × IStream × Sev :=
+  let (oi, s3) := s2.extractInt32
+  if s3.failed then
+    let (s4, e) := checkRemainingInput delims s3 (err0.greater .warning)
+    (none, s4, e)
+  else
+    let (s4, e) := checkRemainingInput delims s3 err0
+    let id := oi.getD (-1)
+    match lookup id with
+    | .found => (some id, s4, e)
+    | .wrongType => (none, s4, e.greater .warning)
+    | .missing => (none, s4, e.greater .warning)
+
 /-- `ReadEntityRef` followed by the `EntityValidLevel` test in `STEPattribute::STEPread`; value = file id -/
 def readEntityRef (lookup : Int → RefLookup) (delims : Option (List Byte)) (s : IStream) (err : Sev) :
     Option Int × IStream × Sev :=
@@ -384,18 +399,7 @@ def readEntityRef (lookup : Int → RefLookup) (delims : Option (List Byte)) (s 
   let (oc, s2) := s1.getChar
   let c := oc.getD 0     -- uninitialised `char c` when nothing could be read; any value but '#'/'@' behaves alike
   if (c == 35 || c == 64) && oc.isSome then
-    let err0 := if c == 64 then err.greater .warning else err
-    let (oi, s3) := s2.extractInt32
-    if s3.failed then
-      let (s4, e) := checkRemainingInput delims s3 (err0.greater .warning)
-      (none, s4, e)
-    else
-      let (s4, e) := checkRemainingInput delims s3 err0
-      let id := oi.getD (-1)
-      match lookup id with
-      | .found => (some id, s4, e)
-      | .wrongType => (none, s4, e.greater .warning)
-      | .missing => (none, s4, e.greater .warning)
+    refTail lookup delims s2 (if c == 64 then err.greater .warning else err)
   else
     let (s3, e) := checkRemainingInput delims (s2.putback c) err
     (none, s3, e)
